@@ -49,7 +49,7 @@ def _js(x, depth=0):
 # operation under test so that history-dependent defects become reachable.
 
 PREFIX_OPS = ["quantise", "quantise_same", "qnl", "normalise", "cutoff", "pad", "transpose", "set_channel", "scale", "copy",
-              "read_abs", "read_rel", "iter_abs_velocity_edit", "iter_rel_velocity_edit", "merge_empty"]
+              "read_abs", "read_rel", "iter_abs_velocity_edit", "iter_rel_velocity_edit", "merge_empty", "concat_copy"]
 
 
 def random_prefix(rng, n=(0, 3), same_steps=None):
@@ -72,6 +72,11 @@ def random_prefix(rng, n=(0, 3), same_steps=None):
             op["c"] = rng.randrange(0, 3)
         elif name == "scale":
             op["k"] = rng.choice([1, 2, 3])
+        elif name == "concat_copy":
+            # material appended from a copy of another sequence (copy: the by-reference aliasing of concatenate is a known
+            # finding of C04 and kept out of these histories); pitches far from the usual pools
+            base = rng.choice([22, 104, 60])
+            op["notes"] = [[0, base + j, 6 * j, rng.choice([6, 12, 24]), rng.randint(1, 127)] for j in range(rng.randint(1, 3))]
         ops.append(op)
     return ops
 
@@ -112,6 +117,9 @@ def apply_prefix(s, ops):
             for m in s.messages_rel():
                 if m.message_type == MT.NOTE_ON:
                     m.velocity = (m.velocity % 127) + 1
+        elif n == "concat_copy":
+            from vmon import gen as _g
+            s.concatenate([_g.build_seq({"notes": op["notes"], "extra": []}).copy()])
         elif n == "merge_empty":
             from scoda.sequences.sequence import Sequence
             s.merge([Sequence()])
